@@ -33,6 +33,7 @@ mod c01;
 mod c02;
 mod csearch;
 mod cgame;
+mod scripts;
 mod c10;
 mod c11;
 mod c12;
@@ -54,6 +55,12 @@ fn main() {
     let n: usize = args[3].parse().expect("n");
     let outdir = std::path::PathBuf::from(&args[4]);
     std::fs::create_dir_all(&outdir).unwrap();
+    if prop.starts_with("scripts") {
+        let mut rng = common::Rng::new(seed);
+        let flavour = prop.strip_prefix("scripts-").unwrap_or("mixed");
+        scripts::run(&mut rng, n, &outdir, flavour);
+        return;
+    }
     // panics of the engine under test are caught per operation; keep the default hook quiet
     std::panic::set_hook(Box::new(|_| {}));
     let mut out = common::Out::new(&outdir);
